@@ -11,6 +11,7 @@ MISSED=0
 for d in /verif/seeded/*/; do
   name=$(basename $d)
   [ -n "$FILTER" ] && [[ "$name" != *$FILTER* ]] && continue
+  grep -q "\"obsolete\"" $d/meta.json && { echo "$name: skipped (obsolete)"; continue; }
   PROPS=$(python3 -c "import json,sys; m=json.load(open('$d/meta.json')); print(' '.join(m.get('check_properties',[m['property']])))")
   git -C /repo apply "$d/patch.diff" || { echo "$name: patch does not apply"; MISSED=1; continue; }
   CAUGHT=""
